@@ -43,6 +43,9 @@ def main() -> int:
     except bootstrap.Inconclusive as e:
         print(f"INCONCLUSIVE property={a.pid} {e}")
         return 2
+    except Exception as e:  # the tree does not even import: no verdict about the property
+        print(f"INCONCLUSIVE property={a.pid} the working tree cannot be imported: {type(e).__name__}: {e}")
+        return 2
     if a.setup:
         import pulser
         print("setup ok: pulser", pulser.__version__, "from", pulser.__file__)
